@@ -33,11 +33,23 @@ def run(tier, seed):
     events = []
     # (a) graphs
     cases, total = G.generate(tier, seed)
+
+    def compiles(c):
+        # a serde type with a field of a non-serde type, or a command taking a non-serde type, is not a program rustc
+        # accepts: such graphs exist for C07 (nothing unreachable or non-serde is declared) and say nothing about closure
+        for n in c["edges"]:
+            for e in c["edges"][n]:
+                if c["serde"].get(n) and not c["serde"].get(e["to"], True):
+                    return False
+        return all(c["serde"].get(r["to"], True) for r in c["roots"])
+    cases = [c for c in cases if compiles(c)]
     if tier == "quick":
         # a mix of plain three-node graphs and the edge-context / root-site cases
-        g3 = [c for c in cases if len(c["nodes"]) == 3][:150]
+        g3 = [c for c in cases if len(c["nodes"]) == 3 and not c.get("nodekind", {}).get("A") and len(c.get("place", {})) <= 1 and not c.get("derive", {}).get("A")][:150]
         ge = [c for c in cases if len(c["nodes"]) == 4]
-        cases = g3 + ge
+        # plus the families that vary how types are written and where they live
+        fam = [c for c in cases if c.get("nodekind", {}).get("A") or len(c.get("place", {})) > 1 or c.get("derive", {}).get("A")]
+        cases = g3 + ge + fam[::3]
     reach, modules = G.observe(d, cases)
     events.extend(modules)
     # (b) named types at every structural position
